@@ -244,6 +244,19 @@ func (s *c26Spec) pending() []uint64 {
 	return ks
 }
 
+// stranded returns the stored items that were not emitted in this open although the consumer
+// drained the queue, and that lie at or below a delete bound of this open.
+func (s *c26Spec) stranded() []uint64 {
+	var ks []uint64
+	for k := range s.stored {
+		if !s.emittedOpen[k] && s.anyDelOpen && k <= s.maxDelOpen {
+			ks = append(ks, k)
+		}
+	}
+	sort.Slice(ks, func(i, j int) bool { return ks[i] < ks[j] })
+	return ks
+}
+
 // ---- generator -------------------------------------------------------------------
 
 type c26Gen struct {
@@ -755,6 +768,11 @@ func TestVerifC26(t *testing.T) {
 		}
 		if p := spec.pending(); len(p) > 0 {
 			rep.Fail("progress:stored-item-never-emitted", fmt.Sprintf("after draining, stored items %v (above every delete bound of this open) were never emitted", p),
+				map[string]interface{}{"ops": vfTrunc(res.ops), "impl": vfTrunc(res.out)})
+		}
+		if st := spec.stranded(); len(st) > 0 {
+			rep.Fail("progress:stored-item-at-or-below-a-delete-bound-not-emitted-until-reopen",
+				fmt.Sprintf("after draining, stored items %v (enqueued at or below a DeleteRange bound of this open) were not emitted", st),
 				map[string]interface{}{"ops": vfTrunc(res.ops), "impl": vfTrunc(res.out)})
 		}
 		rep.Count("drain-sequences")
